@@ -234,6 +234,10 @@ type lockEngine struct {
 	mayLock map[*Unit]bool
 	// resolveDyn resolves a non-static call to units (delegate methods, func fields, local closures).
 	resolveDyn func(u *Unit, call *ast.CallExpr) (targets []*Unit, opaqueApp bool)
+	inlineAt   map[*ast.CallExpr]*Unit
+	inlined    map[*Unit]bool
+	cfgs       map[*Unit]*cfg.CFG
+	dcache     map[*Unit]map[token.Pos]map[types.Object]bool
 }
 
 func newLockEngine(fset *token.FileSet, info *types.Info, units []*Unit, spec lockSpec) *lockEngine {
@@ -485,40 +489,194 @@ func (e *lockEngine) derives(u *Unit) map[token.Pos]map[types.Object]bool {
 	return D
 }
 
-func (e *lockEngine) analyse(u *Unit) *lockUnitReport {
-	rep := &lockUnitReport{unit: u}
+// lockCtx is the state shared by one top-level analysis and the closures it
+// analyses in context (inlined at their call sites).
+type lockCtx struct {
+	reports    map[*Unit]*lockUnitReport
+	order      []*Unit
+	emit       bool
+	seen       map[string]bool
+	counted    map[token.Pos]bool
+	readMethod map[token.Pos]string
+	keyIdents  map[string][]types.Object
+	lockSite   map[string]token.Pos
+	depth      int
+}
+
+func (cx *lockCtx) rep(u *Unit) *lockUnitReport {
+	r := cx.reports[u]
+	if r == nil {
+		r = &lockUnitReport{unit: u, hasLockOps: true}
+		cx.reports[u] = r
+		cx.order = append(cx.order, u)
+	}
+	return r
+}
+
+// computeInline finds the function literals that are only ever called from
+// their enclosing function (immediately invoked, or bound once to a local
+// variable whose every use is a call). They are analysed in the context of each
+// call site instead of as free-standing units, so a closure may release or
+// acquire a lock on behalf of its parent.
+func (e *lockEngine) computeInline() {
+	e.inlineAt = map[*ast.CallExpr]*Unit{}
+	e.inlined = map[*Unit]bool{}
+	for _, u := range e.units {
+		if u.Lit != nil || u.Decl == nil {
+			continue
+		}
+		// variable -> literal, when assigned exactly once
+		asg := map[types.Object]*ast.FuncLit{}
+		nasg := map[types.Object]int{}
+		ast.Inspect(u.Body, func(n ast.Node) bool {
+			switch x := n.(type) {
+			case *ast.AssignStmt:
+				for i, l := range x.Lhs {
+					if id, ok := l.(*ast.Ident); ok && i < len(x.Rhs) {
+						if o := e.info.ObjectOf(id); o != nil {
+							nasg[o]++
+							if fl, ok := x.Rhs[i].(*ast.FuncLit); ok {
+								asg[o] = fl
+							}
+						}
+					}
+				}
+			case *ast.ValueSpec:
+				for i, id := range x.Names {
+					if o := e.info.ObjectOf(id); o != nil && i < len(x.Values) {
+						nasg[o]++
+						if fl, ok := x.Values[i].(*ast.FuncLit); ok {
+							asg[o] = fl
+						}
+					}
+				}
+			}
+			return true
+		})
+		// uses of each such variable other than as a callee
+		callee := map[*ast.Ident]bool{}
+		calls := map[types.Object][]*ast.CallExpr{}
+		ast.Inspect(u.Body, func(n ast.Node) bool {
+			if c, ok := n.(*ast.CallExpr); ok {
+				switch f := c.Fun.(type) {
+				case *ast.Ident:
+					callee[f] = true
+					if o := e.info.ObjectOf(f); o != nil {
+						calls[o] = append(calls[o], c)
+					}
+				case *ast.FuncLit:
+					if t := e.byLit[f]; t != nil {
+						e.inlineAt[c] = t
+						e.inlined[t] = true
+					}
+				}
+			}
+			return true
+		})
+		otherUse := map[types.Object]bool{}
+		ast.Inspect(u.Body, func(n ast.Node) bool {
+			if id, ok := n.(*ast.Ident); ok && !callee[id] {
+				if o := e.info.Uses[id]; o != nil {
+					otherUse[o] = true
+				}
+			}
+			return true
+		})
+		for o, fl := range asg {
+			if nasg[o] == 1 && !otherUse[o] && len(calls[o]) > 0 {
+				if t := e.byLit[fl]; t != nil {
+					for _, c := range calls[o] {
+						e.inlineAt[c] = t
+					}
+					e.inlined[t] = true
+				}
+			}
+		}
+	}
+	// go/defer of a literal is not a call in context
+	for _, u := range e.units {
+		ast.Inspect(u.Body, func(n ast.Node) bool {
+			var c *ast.CallExpr
+			switch x := n.(type) {
+			case *ast.GoStmt:
+				c = x.Call
+			case *ast.DeferStmt:
+				c = x.Call
+			}
+			if c != nil {
+				if t := e.inlineAt[c]; t != nil {
+					delete(e.inlineAt, c)
+					delete(e.inlined, t)
+				}
+			}
+			return true
+		})
+	}
+}
+
+func (e *lockEngine) hasLockOps(u *Unit) bool {
+	has := false
 	inspectShallow(u.Body, func(n ast.Node) bool {
 		if c, ok := n.(*ast.CallExpr); ok {
 			if k, _, _ := e.spec.classify(c); k != "" {
-				rep.hasLockOps = true
+				has = true
 			}
 		}
 		return true
 	})
-	if !rep.hasLockOps {
-		return rep
-	}
-	g := cfg.New(u.Body, func(*ast.CallExpr) bool { return true })
-	D := e.derives(u)
-	readMethod := map[token.Pos]string{}
-	keyIdents := map[string][]types.Object{}
-	lockSite := map[string]token.Pos{}
+	return has
+}
 
-	emit := false
-	seen := map[string]bool{}
+// analyse runs the typestate on a free-standing unit (entry state empty) and
+// returns one report per unit touched (the unit itself and closures analysed
+// in its context).
+func (e *lockEngine) analyse(u *Unit) []*lockUnitReport {
+	if e.inlineAt == nil {
+		e.computeInline()
+	}
+	cx := &lockCtx{reports: map[*Unit]*lockUnitReport{}, seen: map[string]bool{}, counted: map[token.Pos]bool{}, readMethod: map[token.Pos]string{}, keyIdents: map[string][]types.Object{}, lockSite: map[string]token.Pos{}}
+	e.flow(cx, u, newLockState(), false)
+	var out []*lockUnitReport
+	for _, x := range cx.order {
+		out = append(out, cx.reports[x])
+	}
+	return out
+}
+
+// flow analyses unit u starting from the given entry state and returns the
+// join of its exit states.
+func (e *lockEngine) flow(cx *lockCtx, u *Unit, entry *lockState, inline bool) *lockState {
+	cx.depth++
+	defer func() { cx.depth-- }()
+	rep := cx.rep(u)
+	if cx.depth > 6 {
+		if cx.emit {
+			rep.findings = append(rep.findings, lockFinding{rule: "ENGINE", desc: "closure nesting too deep to analyse in context", pos: u.Body.Pos(), verdict: UNDECIDED})
+		}
+		return entry.clone()
+	}
+	g := e.cfgOf(u)
+	D := e.derivesOf(u)
+	readMethod, keyIdents, lockSite, counted := cx.readMethod, cx.keyIdents, cx.lockSite, cx.counted
+	var parentDeferred map[string]bool
+	entry = entry.clone()
+	if inline {
+		parentDeferred = entry.deferred
+		entry.deferred = map[string]bool{}
+	}
+	outerEmit := cx.emit
 	add := func(verdict, rule, key, desc, detail string, pos token.Pos) {
-		if !emit {
+		if !cx.emit {
 			return
 		}
 		id := fmt.Sprintf("%s|%s|%s|%d", rule, key, desc, pos)
-		if seen[id] {
+		if cx.seen[id] {
 			return
 		}
-		seen[id] = true
+		cx.seen[id] = true
 		rep.findings = append(rep.findings, lockFinding{rule: rule, key: key, desc: desc, detail: detail, pos: pos, verdict: verdict})
 	}
-	counted := map[token.Pos]bool{}
-
+	emitNow := func() bool { return cx.emit }
 	// transfer applies one CFG node to s. Returns an optional refinement to
 	// apply on the successors when the node is the block's branch condition.
 	type refine func(succ int, st *lockState)
@@ -702,6 +860,12 @@ func (e *lockEngine) analyse(u *Unit) *lockUnitReport {
 				}
 			default:
 				// other calls: nested locking and application code under lock
+				if t := e.inlineAt[c]; t != nil {
+					// a closure called only from here: analyse it in this context
+					ex := e.flow(cx, t, s, true)
+					*s = *ex
+					return true
+				}
 				ts, opaque := e.callees(u, c)
 				held := copySet(s.may)
 				for pk := range s.pending {
@@ -716,13 +880,17 @@ func (e *lockEngine) analyse(u *Unit) *lockUnitReport {
 						}
 					}
 				}
-				if opaque && len(held) > 0 && emit {
+				if opaque && len(held) > 0 && emitNow() {
 					rep.appCallsUnderLock = append(rep.appCallsUnderLock, fmt.Sprintf("%s: %s called while holding {%s}", relPos(e.fset, c.Pos()), types.ExprString(c.Fun), setKeys(held)))
 				}
 			}
 			return true
 		})
-		if r, ok := n.(*ast.ReturnStmt); ok {
+		if r, ok := n.(*ast.ReturnStmt); ok && inline {
+			if len(s.pending) > 0 {
+				add(VIOLATION, "R1", "", "return while a Lock error is still untested", "", r.Pos())
+			}
+		} else if ok {
 			if len(s.oblig) > 0 {
 				var sites []string
 				for k := range s.oblig {
@@ -781,7 +949,7 @@ func (e *lockEngine) analyse(u *Unit) *lockUnitReport {
 	}
 
 	in := make([]*lockState, len(g.Blocks))
-	in[0] = newLockState()
+	in[0] = entry
 	runBlock := func(b *cfg.Block) (out *lockState, rf refine) {
 		s := in[b.Index].clone()
 		for ni, n := range b.Nodes {
@@ -792,14 +960,16 @@ func (e *lockEngine) analyse(u *Unit) *lockUnitReport {
 		}
 		return s, rf
 	}
+	cx.emit = false
 	work := []*cfg.Block{g.Blocks[0]}
 	iter := 0
 	for len(work) > 0 {
 		iter++
 		if iter > 100000 {
-			emit = true
+			cx.emit = true
 			add(UNDECIDED, "ENGINE", "", "fixpoint did not converge", "", u.Body.Pos())
-			return rep
+			cx.emit = outerEmit
+			return entry
 		}
 		b := work[0]
 		work = work[1:]
@@ -819,19 +989,20 @@ func (e *lockEngine) analyse(u *Unit) *lockUnitReport {
 			}
 		}
 	}
-	// reporting pass over the stable states
-	emit = true
+	// reporting pass over the stable states (top level, or when the caller is reporting)
+	cx.emit = outerEmit || !inline
+	var exit *lockState
 	for _, b := range g.Blocks {
 		if in[b.Index] == nil {
 			continue // unreachable
 		}
 		s, _ := runBlock(b)
-		if len(b.Succs) == 0 {
+		if len(b.Succs) == 0 && b.Live {
 			endsInReturn := false
 			if len(b.Nodes) > 0 {
 				_, endsInReturn = b.Nodes[len(b.Nodes)-1].(*ast.ReturnStmt)
 			}
-			if !endsInReturn && b.Live {
+			if !endsInReturn && !inline {
 				// falling off the end, or a panic/no-return call
 				if len(s.oblig) > 0 {
 					add(VIOLATION, "R4", setKeys(s.oblig), "function end reached with {"+setKeys(s.oblig)+"} still locked", "", u.Body.End())
@@ -839,7 +1010,55 @@ func (e *lockEngine) analyse(u *Unit) *lockUnitReport {
 					add(OK, "R4", "", "function end releases every lock", "", u.Body.End())
 				}
 			}
+			if inline {
+				// deferred calls registered inside the closure run now
+				for k := range s.deferred {
+					delete(s.must, k)
+					delete(s.may, k)
+					delete(s.oblig, k)
+					for _, ks := range s.reads {
+						delete(ks, k)
+					}
+				}
+				s.deferred = copySet(parentDeferred)
+			}
+			if exit == nil {
+				exit = s
+			} else {
+				exit = joinLock(exit, s)
+			}
 		}
 	}
-	return rep
+	cx.emit = outerEmit
+	if exit == nil {
+		exit = entry.clone() // no normal exit
+		if inline {
+			exit.deferred = copySet(parentDeferred)
+		}
+	}
+	return exit
+}
+
+func (e *lockEngine) cfgOf(u *Unit) *cfg.CFG {
+	if e.cfgs == nil {
+		e.cfgs = map[*Unit]*cfg.CFG{}
+	}
+	if g, ok := e.cfgs[u]; ok {
+		return g
+	}
+	g := cfg.New(u.Body, func(*ast.CallExpr) bool { return true })
+	e.cfgs[u] = g
+	return g
+}
+
+func (e *lockEngine) derivesOf(u *Unit) map[token.Pos]map[types.Object]bool {
+	if e.dcache == nil {
+		e.dcache = map[*Unit]map[token.Pos]map[types.Object]bool{}
+	}
+	if d, ok := e.dcache[u]; ok {
+		return d
+	}
+	d := e.derives(u)
+	e.dcache[u] = d
+	return d
 }
